@@ -2,6 +2,7 @@
 (* Trace validation for postcard-schema (C14, C15, C16, C19).
    schema_tree: one run-time-built schema tree: borrowed/owned serialisation, conversion, decoding, both key
                 hashers, used-type collection, rendering.
+   schema_big : a struct around an array of tens of thousands of elements, logged in compressed form.
    conform    : one value of a concrete type: its borrowed SCHEMA, its recorded serde call tree, its postcard
                 bytes, its compile-time key. *)
 EXTENDS SchemaModel, Json, IOUtils
@@ -33,6 +34,33 @@ JudgeTree(e) ==
                   <<render_ok, "render">> >>)
   IN [ok |-> b = <<>>, exp |-> [bad |-> b, want |-> [bytes |-> enc, key |-> key, n_used |-> Cardinality(Subtrees(t))]]]
 
+\* struct Big { arr: [elem; n] } with n far beyond what can be logged element by element (see h_schema big_event): the
+\* serialisation comes split as (bytes before the elements, one element, repetitions), the trees with the array
+\* compressed as [k |-> "Tuple", rep |-> n, t |-> elem]. The expected prefix is that of the same struct around a unit
+\* field, less the unit's tag, followed by the tuple tag and the element count.
+JudgeBig(e) ==
+  IF Has(e, "panic") THEN [ok |-> FALSE, exp |-> [bad |-> <<"panic15">>, want |-> "no panic"]]
+  ELSE
+  LET t == e.tree
+      arr == t.data.fs[1].ty
+      standin == [k |-> "Struct", name |-> t.name, data |-> [k |-> "Struct", fs |-> <<[name |-> t.data.fs[1].name, ty |-> [k |-> "Unit"]]>>]]
+      es == EncSchema(standin)
+      pre == SubSeq(es, 1, Len(es) - 1) \o <<KindIdx("Tuple")>> \o SmallVar(e.n)
+      per == EncSchema(e.elem)
+      SplitOK(x) == ~Has(x, "err") /\ x.pre = pre /\ x.period = per /\ x.reps = e.n /\ x.len = Len(pre) + e.n * Len(per)
+      used_ok == ~Has(e, "used_panic") /\ Has(e, "used") /\ ToSet(e.used) = {t, arr} \cup Subtrees(e.elem)
+      render_ok == /\ ~Has(e, "render_panic") /\ Has(e, "rendered") /\ Has(e, "display")
+                   /\ Occurs(t.name, e.rendered) /\ Occurs(t.data.fs[1].name, e.rendered)
+      b == Bad(<< <<arr.rep = e.n /\ arr.t = e.elem, "harness">>,
+                  <<SplitOK(e.bytes_borrowed), "enc_borrowed">>,
+                  <<SplitOK(e.bytes_owned), "enc_owned">>,
+                  <<e.owned_tree = t, "conv">>,
+                  <<e.decoded_tree = t /\ e.decoded_eq_conv = 1 /\ e.decoded_rest = 0, "dec">>,
+                  <<e.key_owned = e.key_const, "key_owned">>,
+                  <<used_ok, "used">>,
+                  <<render_ok, "render">> >>)
+  IN [ok |-> b = <<>>, exp |-> [bad |-> b, want |-> [pre |-> pre, period |-> per, n_used |-> 2 + Cardinality(Subtrees(e.elem))]]]
+
 JudgeConform(e) ==
   IF Has(e, "panic") THEN [ok |-> FALSE, exp |-> [bad |-> <<"panic14">>, want |-> "no panic"]]
   ELSE
@@ -50,6 +78,7 @@ JudgeConform(e) ==
 Judge(e) ==
   CASE e.op = "schema_tree" -> JudgeTree(e)
     [] e.op = "conform" -> JudgeConform(e)
+    [] e.op = "schema_big" -> JudgeBig(e)
     [] OTHER -> [ok |-> FALSE, exp |-> [bad |-> <<"crash">>, want |-> "no action of the specification matches this event"]]
 Init == l = 1
 Next == /\ l <= Len(Rec) /\ l' = l + 1
